@@ -20,12 +20,12 @@ theorem imp_of_bool {a b : Bool} (h : (!a || b) = true) (ha : a = true) : b = tr
 def forallCfg (p : Cfg → Bool) : Bool :=
   forallB fun a1 => forallB fun a2 => forallB fun a3 => forallB fun a4 => forallB fun a5 =>
   forallB fun a6 => forallB fun a7 => forallB fun a8 => forallB fun a9 => forallB fun a10 =>
-  forallB fun a11 => p ⟨a1, a2, a3, a4, a5, a6, a7, a8, a9, a10, a11⟩
+  forallB fun a11 => forallB fun a12 => p ⟨a1, a2, a3, a4, a5, a6, a7, a8, a9, a10, a11, a12⟩
 
 theorem forallCfg_spec {p : Cfg → Bool} (h : forallCfg p = true) (c : Cfg) : p c = true := by
-  obtain ⟨a1, a2, a3, a4, a5, a6, a7, a8, a9, a10, a11⟩ := c
+  obtain ⟨a1, a2, a3, a4, a5, a6, a7, a8, a9, a10, a11, a12⟩ := c
   exact forallB_spec (forallB_spec (forallB_spec (forallB_spec (forallB_spec (forallB_spec (forallB_spec
-    (forallB_spec (forallB_spec (forallB_spec (forallB_spec h a1) a2) a3) a4) a5) a6) a7) a8) a9) a10) a11
+    (forallB_spec (forallB_spec (forallB_spec (forallB_spec (forallB_spec h a1) a2) a3) a4) a5) a6) a7) a8) a9) a10) a11) a12
 
 /-! ## known_hosts -/
 
@@ -202,20 +202,53 @@ theorem runFrom_stop (lib : Lib) (c : Cfg) (s : St) (calls : List (Call × Bool)
 /-- STATIC check of a call order: going through `open()`'s calls, has the key VALUE been verified
     (`v`) / the host been seen present (`p`) when a call that carries credentials is reached?
     `authenticate` needs `v`; `connect` needs `v` or the expected key pinned into the call with no
-    way to end up unpinned (`fallback = false`);
+    way to end up unpinned: `fallback = false`, and not `overridable` by the user's options — the
+    latter only matters when the user's options do carry `known_hosts: None` (`u`);
     `_verify_key_value` needs the presence check before it (else `{}["public_key"]` is a KeyError);
     and some verification must happen at all. -/
-def safeFrom : Bool → Bool → List (Call × Bool) → Bool
+def safeFromG (u : Bool) : Bool → Bool → List (Call × Bool) → Bool
   | v, _, [] => v
-  | v, p, (.handshake, _) :: r => safeFrom v p r
-  | v, p, (.openChannel, _) :: r => safeFrom v p r
-  | _, _, (.verifyKey, _) :: r => safeFrom true true r
-  | v, _, (.verifyPresent, _) :: r => safeFrom v true r
-  | _, p, (.verifyValue, _) :: r => p && safeFrom true p r
-  | v, p, (.connect pin fb, _) :: r => (v || (pin && !fb)) && safeFrom (v || (pin && !fb)) p r
-  | v, p, (.authenticate, _) :: r => v && safeFrom v p r
+  | v, p, (.handshake, _) :: r => safeFromG u v p r
+  | v, p, (.openChannel, _) :: r => safeFromG u v p r
+  | _, _, (.verifyKey, _) :: r => safeFromG u true true r
+  | v, _, (.verifyPresent, _) :: r => safeFromG u v true r
+  | _, p, (.verifyValue, _) :: r => p && safeFromG u true p r
+  | v, p, (.connect pin fb ov, _) :: r =>
+    (v || (pin && !fb && !(ov && u))) && safeFromG u (v || (pin && !fb && !(ov && u))) p r
+  | v, p, (.authenticate, _) :: r => v && safeFromG u v p r
 
-def safeOrder (calls : List (Call × Bool)) : Bool := safeFrom false false calls
+/-- safe WHATEVER the user's transport options are -/
+def safeOrder (calls : List (Call × Bool)) : Bool := safeFromG true false false calls
+/-- safe PROVIDED the user's transport options do not carry `known_hosts: None` -/
+def safeOrderP (calls : List (Call × Bool)) : Bool := safeFromG false false false calls
+
+theorem safeFromG_mono (u : Bool) : ∀ (calls : List (Call × Bool)) (v p : Bool),
+    safeFromG true v p calls = true → safeFromG u v p calls = true := by
+  intro calls
+  induction calls with
+  | nil => intro v p h; simpa [safeFromG] using h
+  | cons x rest ih =>
+    intro v p h
+    obtain ⟨call, g⟩ := x
+    cases call with
+    | handshake => simp only [safeFromG] at h ⊢; exact ih _ _ h
+    | openChannel => simp only [safeFromG] at h ⊢; exact ih _ _ h
+    | verifyKey => simp only [safeFromG] at h ⊢; exact ih _ _ h
+    | verifyPresent => simp only [safeFromG] at h ⊢; exact ih _ _ h
+    | verifyValue =>
+      simp only [safeFromG, Bool.and_eq_true] at h ⊢
+      exact ⟨h.1, ih _ _ h.2⟩
+    | authenticate =>
+      simp only [safeFromG, Bool.and_eq_true] at h ⊢
+      exact ⟨h.1, ih _ _ h.2⟩
+    | connect pin fb ov =>
+      simp only [safeFromG, Bool.and_eq_true] at h ⊢
+      obtain ⟨hA, hrest⟩ := h
+      have hB : (v || (pin && !fb && !(ov && u))) = true := by
+        cases v <;> cases pin <;> cases fb <;> cases ov <;> cases u <;> simp_all
+      rw [hA] at hrest
+      rw [hB]
+      exact ⟨rfl, ih _ _ hrest⟩
 
 theorem noOffers_append (a b : List Ev) : noOffers (a ++ b) = (noOffers a && noOffers b) := by
   simp [noOffers, List.all_append]
@@ -242,13 +275,13 @@ theorem raise_done (lib : Lib) (c : Cfg) (s : St) (es : List Ev) (rest : List (C
 
 theorem order_protects_aux (lib : Lib) (c : Cfg) (hs : c.strict = true) (hk : c.kexOK = true)
     (hl : c.hasKey = true → c.keyLoads = true) (hu : c.found = false ∨ c.equal = false) :
-    ∀ (calls : List (Call × Bool)) (p : Bool) (s : St), safeFrom false p calls = true →
+    ∀ (calls : List (Call × Bool)) (p : Bool) (s : St), safeFromG c.userUnpins false p calls = true →
       (p = true → c.found = true) → s.stop = false → noOffers s.evs = true →
       (runFrom lib c s calls).stop = true ∧ noOffers (runFrom lib c s calls).evs = true ∧
       (runFrom lib c s calls).evs.getLast? = some (Ev.raise Exc.authenticationFailed) := by
   intro calls
   induction calls with
-  | nil => intro p s h; simp [safeFrom] at h
+  | nil => intro p s h; simp [safeFromG] at h
   | cons x rest ih =>
     intro p s hsafe hp hstop hn
     obtain ⟨call, g⟩ := x
@@ -257,12 +290,12 @@ theorem order_protects_aux (lib : Lib) (c : Cfg) (hs : c.strict = true) (hk : c.
     rw [hrun]
     cases call with
     | handshake =>
-      simp only [safeFrom] at hsafe
+      simp only [safeFromG] at hsafe
       have : stepCall lib c s Call.handshake = s.emit [Ev.kex] := by simp [stepCall, hk]
       rw [this]
       exact ih p _ hsafe hp (by simp [St.emit, hstop]) (noOffers_emit hn rfl)
     | openChannel =>
-      simp only [safeFrom] at hsafe
+      simp only [safeFromG] at hsafe
       exact ih p _ hsafe hp (by simp [stepCall, St.emit, hstop])
         (noOffers_emit hn rfl)
     | verifyKey =>
@@ -275,7 +308,7 @@ theorem order_protects_aux (lib : Lib) (c : Cfg) (hs : c.strict = true) (hk : c.
           simp [stepCall, hf]
         rw [this]; exact raise_done lib c s _ rest hn rfl
     | verifyPresent =>
-      simp only [safeFrom] at hsafe
+      simp only [safeFromG] at hsafe
       by_cases hf : c.found = true
       · have : stepCall lib c s Call.verifyPresent = s.emit [Ev.lookup true c.equal] := by simp [stepCall, hf]
         rw [this]
@@ -285,38 +318,38 @@ theorem order_protects_aux (lib : Lib) (c : Cfg) (hs : c.strict = true) (hk : c.
           simp [stepCall, hf]
         rw [this]; exact raise_done lib c s _ rest hn rfl
     | verifyValue =>
-      simp only [safeFrom, Bool.and_eq_true] at hsafe
+      simp only [safeFromG, Bool.and_eq_true] at hsafe
       have hf : c.found = true := hp hsafe.1
       have he : c.equal = false := by rcases hu with h | h; simp [hf] at h; exact h
       have : stepCall lib c s Call.verifyValue = s.raise [Ev.lookup true false, Ev.verifyFail] Exc.authenticationFailed := by
         simp [stepCall, hf, he]
       rw [this]; exact raise_done lib c s _ rest hn rfl
-    | connect pin fb =>
-      simp only [safeFrom, Bool.false_or, Bool.and_eq_true, Bool.not_eq_true'] at hsafe
-      obtain ⟨⟨hpin, hfb⟩, _⟩ := hsafe
+    | connect pin fb ov =>
+      simp only [safeFromG, Bool.false_or, Bool.and_eq_true, Bool.not_eq_true'] at hsafe
+      obtain ⟨⟨⟨hpin, hfb⟩, hov⟩, _⟩ := hsafe
       subst hpin; subst hfb
       by_cases hf : c.found = true
       · have he : c.equal = false := by rcases hu with h | h; simp [hf] at h; exact h
         by_cases hi : c.importable = true
         · have hkl : (c.hasKey && !c.keyLoads) = false := by
             cases hh : c.hasKey <;> simp [hl, hh]
-          have : stepCall lib c s (Call.connect true false) =
+          have : stepCall lib c s (Call.connect true false ov) =
               (s.emit [Ev.lookup true false]).raise [Ev.kex, Ev.verifyFail] Exc.authenticationFailed := by
-            simp [stepCall, asyncsshConnect, hs, hf, he, hi, hkl, hk]
+            simp [stepCall, asyncsshConnect, hs, hf, he, hi, hkl, hk, hov]
           rw [this]
           exact raise_done lib c _ _ rest (noOffers_emit hn rfl) rfl
-        · have : stepCall lib c s (Call.connect true false) =
+        · have : stepCall lib c s (Call.connect true false ov) =
               (s.emit [Ev.lookup true false]).raise [] Exc.authenticationFailed := by
             simp [stepCall, asyncsshConnect, hs, hf, he, hi]
           rw [this]
           exact raise_done lib c _ _ rest (noOffers_emit hn rfl) rfl
-      · have : stepCall lib c s (Call.connect true false) =
+      · have : stepCall lib c s (Call.connect true false ov) =
             (s.emit [Ev.lookup false false]).raise [] Exc.authenticationFailed := by
           simp [stepCall, asyncsshConnect, hs, hf]
         rw [this]
         exact raise_done lib c _ _ rest (noOffers_emit hn rfl) rfl
     | authenticate =>
-      simp [safeFrom] at hsafe
+      simp [safeFromG] at hsafe
 
 /-! ## system transport -/
 
